@@ -6,16 +6,20 @@ What is enumerated (real TCPServer / ProtocolWrapper / H11Protocol / H2Protocol 
   TLS with ALPN h2 / http/1.1 / no ALPN; cleartext HTTP/2 preface (prior knowledge); h2c upgrade with
   HTTP2-Settings payloads {default, empty, INITIAL_WINDOW_SIZE=1, not base64} immediately followed by
   the client preface, SETTINGS and a second request with DATA on stream 3; h2c upgrade *with a body*
-  (must stay HTTP/1.1) followed by a pipelined request; WebSocket upgrade (GET) followed, after the
+  (must stay HTTP/1.1, body delivered byte for byte) followed by a pipelined request - the body framed
+  with Content-Length or with Transfer-Encoding: chunked, the framing header behind or in front of the
+  upgrade headers; WebSocket upgrade (GET) followed, after the
   handshake response, by a text frame; POST with Upgrade: websocket (must stay HTTP); unknown Upgrade
   token; plain GET+POST and chunked POST+GET pipelines; HTTP/1.0;
 * segmentation as *data choice points* (always fully enumerated): "2way" every split point of the whole
   byte string (so the further traffic is in the same read as the opening, starts a later read, or the
-  cut falls inside the opening), "3way" every pair of split points, "bytes" one byte per read.  Bytes a
+  cut falls inside the opening, between the head of an upgrade request and its body, inside the body),
+  "3way" every pair of split points, "bytes" one byte per read.  Bytes a
   conforming client can only send after the server's answer (the WebSocket frame) form a second
   *stage* that always starts a new read and is only written once the client has seen the 101;
 * "switch"/gated: the applications wait on a gate before answering, the reads are cut at the switch point
-  (end of the opening request / preface) and one byte either side, and Explorer A interleaves the gate
+  (end of the opening request / preface; for chunked requests end of the head and end of the body) and one
+  byte either side, and Explorer A interleaves the gate
   releases with the reads (also mid-flight), so that trailing bytes arrive while stream 1 is still open.
 
 Oracle clauses:
@@ -38,7 +42,8 @@ from mc.x_c01c02c13_lib import (choose_cuts, h2_script_bytes, h2c_settings_heade
 
 ID = "C13"
 LEVEL = "model_checking"
-TECHNIQUE = ("bounded exhaustive enumeration of connection openings x every segmentation of the client's byte string "
+TECHNIQUE = ("bounded exhaustive enumeration of connection openings (incl. h2c upgrade requests carrying a Content-Length "
+             "or chunked body) x every segmentation of the client's byte string "
              "(data choice points, fully enumerated) on the real TCPServer/ProtocolWrapper/H11/H2 code; reference "
              "selection rule + independent client parsers + metamorphic comparison with the unsplit delivery")
 RULE = ("scenario = engine x opening x segmentation mode x application pacing; one execution per split point (2way), per "
@@ -54,7 +59,8 @@ ASSUMPTIONS = [
     "an h2c client may send its preface right behind the upgrade request (the property's 'same or later reads')",
     "the not-base64 HTTP2-Settings opening is judged by split-independence only",
 ]
-BOUNDS_DOC = {"quick": "every 2-way split and one-byte reads of every opening; every 3-way split of the 3 shortest; "
+BOUNDS_DOC = {"quick": "every 2-way split and one-byte reads of every opening (20, 5 of them h2c upgrades with a body); "
+                       "every 3-way split of the 3 shortest; "
                        "gated applications with cuts at the switch point +-1: M<=1,S<=2",
               "thorough": "every 3-way split of every opening; gated: M<=2,S<=3"}
 BUDGET = {"quick": 100, "thorough": 1500}
@@ -80,11 +86,20 @@ H2_TWO = [("headers", 1, h2_request_headers(b"GET", b"/r1"), True),
 H2_SECOND = H2_TWO[1:]
 
 
-def _upgrade(settings_value: Optional[bytes], method: bytes = b"GET", body: Optional[bytes] = None) -> bytes:
+def _upgrade(settings_value: Optional[bytes], method: bytes = b"GET", body: Optional[bytes] = None,
+             chunked: Optional[List[bytes]] = None, framing_first: bool = False) -> bytes:
+    """An h2c upgrade request; a body is framed with Content-Length (`body`) or Transfer-Encoding: chunked (`chunked`),
+    the framing header written behind the upgrade headers or (framing_first) in front of them."""
     hs = [(b"Connection", b"Upgrade, HTTP2-Settings"), (b"Upgrade", b"h2c")]
     if settings_value is not None:
         hs.append((b"HTTP2-Settings", settings_value))
-    return h1_request(method, b"/r1", hs, body=body)
+    if not framing_first:
+        return h1_request(method, b"/r1", hs, body=body, chunked=chunked)
+    framing = (b"Content-Length", str(len(body)).encode()) if body is not None else (b"Transfer-Encoding", b"chunked")
+    head = h1_request(method, b"/r1", [framing] + hs)
+    if body is not None:
+        return head + body
+    return head + b"".join(b"%x\r\n" % len(c) + c + b"\r\n" for c in chunked or [] if c) + b"0\r\n\r\n"
 
 
 def _openings() -> Dict[str, dict]:
@@ -143,6 +158,15 @@ def _openings() -> Dict[str, dict]:
     o["h2c-body-late"] = {"conn": {"carrier": "h1", "methods": [b"POST", b"GET"]},
                           "stages": [body_late + h1_request(b"GET", b"/r2")],
                           "expect": [("http", "1.1", "/r1", b"hello"), ("http", "1.1", "/r2", b"")]}
+    # --- the same with the body framed by Transfer-Encoding: chunked (a body all the same: stays HTTP/1.1, every chunk
+    # reaches the application), framing header behind / in front of the upgrade headers; Content-Length in front
+    exp_body = [("http", "1.1", "/r1", b"hello"), ("http", "1.1", "/r2", b"")]
+    for name, kw in (("h2c-chunked", {"chunked": [b"he", b"llo"]}),
+                     ("h2c-chunked-first", {"chunked": [b"he", b"llo"], "framing_first": True}),
+                     ("h2c-body-first", {"body": b"hello", "framing_first": True})):
+        o[name] = {"conn": {"carrier": "h1", "methods": [b"POST", b"GET"]},
+                   "stages": [_upgrade(h2c_settings_header(None), b"POST", **kw) + h1_request(b"GET", b"/r2")],
+                   "expect": exp_body}
     o["ws-post"] = {
         "conn": {"carrier": "h1", "methods": [b"POST", b"GET"]},
         "stages": [h1_request(b"POST", b"/r1", [(b"Upgrade", b"websocket"), (b"Connection", b"Upgrade"),
@@ -187,13 +211,19 @@ def bounds(tier: str, params: Any) -> dict:
     return {"M": 1, "S": 2, "R": 0} if tier == "quick" else {"M": 2, "S": 3, "R": 0}
 
 
-def switch_point(name: str) -> int:
-    """Offset at which the opening request ends and the further traffic starts."""
+def switch_points(name: str) -> List[int]:
+    """Offsets at which the opening request (its head, and its body if it has one) ends and the further traffic starts."""
     op = OPENINGS[name]
     data = b"".join(stages_of(op))
     if op["conn"]["carrier"] in ("h2", "h2pk"):
-        return 24  # the 24-byte connection preface
-    return data.index(b"\r\n\r\n") + 4 + (5 if b"Content-Length: 5" in data[:data.index(b"\r\n\r\n")] else 0)
+        return [24]  # the 24-byte connection preface
+    head_end = data.index(b"\r\n\r\n") + 4
+    head = data[:head_end]
+    if b"Content-Length: 5" in head:
+        return [head_end + 5]
+    if b"Transfer-Encoding: chunked" in head:  # body in the same read as the head / in a later one; end of the body
+        return [head_end, data.index(b"0\r\n\r\n", head_end) + 5]
+    return [head_end]
 
 
 def scenario_for(params: Any, cuts: Any) -> tuple:
@@ -223,7 +253,7 @@ def scenario_for(params: Any, cuts: Any) -> tuple:
 
 def plan(params: Any, chooser: Any) -> tuple:
     if params[2] == "switch":  # cut at the protocol switch point, one byte before and one byte after it
-        mode: Any = ("list", lattice([switch_point(params[1])], LENGTHS[params[1]])[1:])
+        mode: Any = ("list", lattice(switch_points(params[1]), LENGTHS[params[1]])[1:])
     else:
         mode = params[2]
     cuts = choose_cuts(chooser, LENGTHS[params[1]], mode)
